@@ -16,6 +16,8 @@ import random
 
 from scen import Scn
 import scenario_common as sc
+import mcrapid
+import forced
 import runner
 import tracecheck
 import traceprep
@@ -129,6 +131,10 @@ def scenarios(ctx):
 
 def run(ctx):
     ctx.level = "model_checking"
+    # E1: the property predicates as invariants of the composite (spec/MC_Rapid.tla)
+    mcrapid.check(ctx, ['ResetIsFresh'])
+    # forced schedules through the pause points of /repo (-tags verif)
+    sc.run_families(ctx, forced.scenarios('c08', ('watch-late-cancel', 'clear-vs-invoke')), "forced-schedule")
     ctx.assumptions += sc.ASSUME
     scs = scenarios(ctx)
     summary, outcomes = sc.run_families(ctx, scs, "reset-suffix", require_done=False)
